@@ -406,7 +406,7 @@ def main(tier, only=None):
             rep.sample({'kernel': desc, 'obligation': kind, 'verdict': 'sat', 'witness': o.get('witness'), 'expected': o.get('expected'), 'class': out,
                         'engine': (rp.get('how') or {}).get('engine')}, cap=14)
     # expression-level arms of Evaluator::eval (IS NULL, IN lists), composed from the kernels above
-    if not only or only in ('IsNull', 'In'):
+    if not only or only in ('IsNull', 'In', 'If'):
         from . import c14e
         etasks = [(node, tys, k, n, paths[True]) for node, tys, k in c14e.cases(thorough) for n in ((1, 2, 3) if thorough else (2,)) if not only or only == node]
         with mp.Pool(16) as pool:
